@@ -81,11 +81,12 @@ Print Assumptions digest_names.
 
 (* ---- compile.py as it is: each conjunct fails, with an explicit schedule ---- *)
 
-(* one process is killed while linking; the next request, in a fresh process, dies in its first step *)
+(* one process is killed while linking; the next request, in a fresh process, dies at its import
+   (its second step, after the idempotent mkdir) *)
 Theorem recovery_refuted : forall orc, orc Header = Crash ->
   (forall p, p <> 0 -> ~ In (Kill p) tr_killed_in_link) /\
   files (run Old orc tr_killed_in_link init) (Final So 0) = Partial Header 0 /\
-  outcome_of (run Old orc (tr_killed_in_link ++ [Spawn 1 0; Step 1]) init) 1 = Some Death.
+  outcome_of (run Old orc (tr_killed_in_link ++ [Spawn 1 0; Step 1; Step 1]) init) 1 = Some Death.
 Proof. exact recovery_refuted_l. Qed.
 Print Assumptions recovery_refuted.
 
@@ -111,3 +112,23 @@ Theorem completed_overwritten_refuted : forall orc,
   files (run Old orc (tr_relink ++ [Step 1]) init) (Final So 0) = Partial Empty 0.
 Proof. exact completed_overwritten_refuted_l. Qed.
 Print Assumptions completed_overwritten_refuted.
+
+(* ---- creating the cache directory on a cold start ---- *)
+
+(* os.makedirs(MODDIR, exist_ok=True) is one atomic idempotent step of New: by race_safety no schedule
+   makes it fail, and the directory exists for every process that is past it *)
+Theorem cache_dir_exists : forall orc st tr p q,
+  Inv orc st -> procs (run New orc tr st) p = Some q ->
+  match ppc q with PMkdir | PChkDir | PCreate | PDone _ => True | _ => files (run New orc tr st) CacheDir = Complete 0 end.
+Proof. exact cache_dir_exists_l. Qed.
+Print Assumptions cache_dir_exists.
+
+(* the check-then-create pair `if not isdir(MODDIR): makedirs(MODDIR)` (proto NewCC) is two steps:
+   on a cache directory that does not exist yet, two processes -- on different forms, nobody killed --
+   both pass the check and the second makedirs raises *)
+Theorem cold_start_refuted : forall orc,
+  (forall p, ~ In (Kill p) tr_cold_start) /\
+  files init CacheDir = Absent /\
+  outcome_of (run NewCC orc tr_cold_start init) 1 = Some Exn.
+Proof. exact cold_start_refuted_l. Qed.
+Print Assumptions cold_start_refuted.
